@@ -540,6 +540,61 @@ Proof.
   intros k [-> | ->]; vm_compute; discriminate.
 Qed.
 
+Lemma sim_dfaddf_S : forall h a kind txt x0 h' mr a' sr, Sim h a -> kind_ok kind ->
+  mstep h (ODfAddF kind txt x0) = (h', mr) -> step a (ODfAddF kind txt (ref1 mr)) = (a', sr) ->
+  sr = RUnspec \/ exhausted sr mr \/
+  (Sim h' a' /\ accepts_full sr mr /\ l_dir (h_lib h') = l_dir (h_lib h) /\
+   forall k d, kind_ok k -> d_tag d = dfan_tag k -> (In d (l_dds (h_lib h')) <-> In d (l_dds (h_lib h)))).
+Proof.
+  intros h a kind txt x0 h' mr a' sr HS Hk HM HSp. unfold mstep in HM. cbv beta iota zeta in HM. simpl in HSp.
+  rewrite (sim_sess _ _ HS) in HSp. destruct (h_sess h) eqn:Es; [inversion HSp; left; reflexivity|].
+  pose proof (sim_good _ _ HS) as HG. pose proof HG as [HI HT]. destruct (sim_closed _ _ HS Es) as [C1 C2].
+  destruct (ftype_facts kind Hk) as [K1 [K2 [K3 [K4 [K5 K6]]]]]. set (t := dfan_kind_ftype kind) in *.
+  set (tag := if kind =? DFAN_LABEL then DFTAG_FID else DFTAG_FD) in *.
+  destruct ((zlen txt =? 0) || ((kind =? DFAN_LABEL) && has_nul txt)) eqn:Et; [inversion HSp; left; reflexivity|].
+  apply orb_false_iff in Et. destruct Et as [Et _].
+  assert (Hrepr : forall x, In x (anns a) <-> In x (map ann_of (l_dds (h_lib h)))).
+  { intros x. rewrite (sim_repr _ _ HS). apply closed_repr_iff; assumption. }
+  unfold DFANIaddfann in HM. fold tag in HM. remember (htagnewref tag (l_dds (h_lib h))) as annref eqn:Ea.
+  destruct (annref =? 0) eqn:Ea0.
+  { apply Z.eqb_eq in Ea0. inversion HM; subst h' mr. simpl in HSp. unfold fresh in HSp. simpl in HSp. inversion HSp; subst.
+    right. left. split; reflexivity. }
+  apply Z.eqb_neq in Ea0. destruct (htagnewref_range _ _ _ (eq_sym Ea) Ea0) as [Hrange Hnotin].
+  rewrite Et in HM. inversion HM; subst h' mr; clear HM. cbn [ref1 l_lastref set_lastref] in HSp.
+  assert (Hhf : hfind tag annref (l_dds (h_lib h)) = None) by (apply not_in_refs_hfind; assumption).
+  set (nd := mkdd tag annref txt) in *.
+  assert (Hfr : fresh t annref (anns a) = true).
+  { unfold fresh. destruct Hrange as [R1 R2]. rewrite (proj2 (Z.leb_le _ _) R1), (proj2 (Z.leb_le _ _) R2). simpl.
+    destruct (lookup (t, annref) (anns a)) as [x|] eqn:L; [|reflexivity]. exfalso. apply lookup_In in L. destruct L as [L1 L2].
+    apply Hrepr in L1. apply in_map_iff in L1. destruct L1 as [d [E Hd]]. subst x. unfold ann_of in L2. simpl in L2. inversion L2.
+    destruct (tf_tags _ HT d Hd) as [ty [Ty Gy]]. rewrite Gy, ty_of_tag_of_type in H0 by assumption. subst ty.
+    apply Hnotin. rewrite <- H1. apply in_map. unfold of_tag. apply filter_In. split; [assumption|]. apply Z.eqb_eq. rewrite Gy. symmetry. exact K2. }
+  rewrite Hfr in HSp. inversion HSp; subst a' sr; clear HSp.
+  assert (Hput : hput tag annref txt (l_dds (h_lib h)) = l_dds (h_lib h) ++ [nd]) by (apply hput_absent; assumption).
+  assert (Hann : ann_of nd = mkann (t, annref) (tag_of_type t) annref (Some txt)).
+  { unfold ann_of, nd, target_of, payload_text. cbn [d_tag d_ref d_data]. rewrite K5, K3, K4. cbn [fst snd]. rewrite <- K2. reflexivity. }
+  set (s2 := set_lastref (set_dds (h_lib h) (hput tag annref txt (l_dds (h_lib h)))) annref).
+  assert (Htr2 : forall ty, l_tree s2 ty = None) by (intros ty; apply C1).
+  assert (HI2 : Inv s2).
+  { apply (Inv_same_tables (h_lib h)); [assumption | repeat split|]. unfold s2; cbn [l_dds set_lastref set_dds]. rewrite Hput.
+    intros d Hd. apply in_app_or in Hd. destruct Hd as [Hd|[<-|[]]]; [apply (inv_refs _ HI); assumption | exact Hrange]. }
+  assert (HT2 : TF s2).
+  { apply (TF_hput_closed (h_lib h) _ tag annref txt); auto. exists t. auto. intros X. rewrite K4 in X. discriminate. }
+  right. right. split; [|split; [left; unfold accepts; split; [left; reflexivity | constructor]|]].
+  - unfold add_ann. constructor; cbn [h_lib hlib h_sess h_slots anns slots sess].
+    + split; assumption.
+    + unfold keys. rewrite map_app. cbn [map a_key]. apply NoDup_app_one; [apply (sim_nodup _ _ HS)|]. apply lookup_None.
+      unfold fresh in Hfr. destruct (lookup (t, annref) (anns a)); [rewrite andb_false_r in Hfr; discriminate | reflexivity].
+    + intros x. rewrite in_app_iff. rewrite (closed_repr_iff s2 x (conj HI2 HT2) Htr2). unfold s2; cbn [l_dds set_lastref set_dds]. rewrite Hput, map_app, in_app_iff.
+      cbn [map In]. rewrite Hann, Hrepr. split; [intros [X|[X|[]]]; auto | intros [X|[X|[]]]; auto].
+    + first [apply (sim_sess _ _ HS) | symmetry; exact Es].
+    + intros _. split; [exact Htr2 | exact C2].
+    + intros slot. apply (sim_slots _ _ HS slot).
+  - split; [reflexivity|]. intros k d Hkk Htg. unfold s2. cbn [h_lib hlib l_dds set_lastref set_dds]. rewrite Hput.
+    rewrite in_app_iff. split; [intros [X|[<-|[]]]; [assumption|]|auto].
+    exfalso. apply (K6 k Hkk). symmetry. exact Htg.
+Qed.
+
 Lemma sim_dfaddf : forall h a kind txt x0 h' mr a' sr, SimD h a -> kind_ok kind ->
   mstep h (ODfAddF kind txt x0) = (h', mr) -> step a (ODfAddF kind txt (ref1 mr)) = (a', sr) ->
   sr = RUnspec \/ exhausted sr mr \/ (SimD h' a' /\ accepts_full sr mr).
@@ -806,6 +861,59 @@ Definition enum_capped (a : state) (o : op) : Prop :=
 
 Lemma NoDup_anns : forall l, NoDup (keys l) -> NoDup l.
 Proof. intros l H. apply (NoDup_map_inv a_key). exact H. Qed.
+
+Lemma sim_dfgetfs_S : forall h a kind h' mr a' sr, Sim h a -> kind_ok kind ->
+  mstep h (ODfGetFs kind) = (h', mr) -> step a (ODfGetFs kind) = (a', sr) ->
+  sr = RUnspec \/ enum_capped a (ODfGetFs kind) \/
+  (Sim h' a' /\ accepts_full sr mr /\ l_dir (h_lib h') = l_dir (h_lib h) /\ l_dds (h_lib h') = l_dds (h_lib h)).
+Proof.
+  intros h a kind h' mr a' sr HS Hk HM HSp. unfold mstep in HM. cbv beta iota zeta in HM. unfold step in HSp. cbv beta iota zeta in HSp.
+  rewrite (sim_sess _ _ HS) in HSp. destruct (h_sess h) eqn:Es; [inversion HSp; left; reflexivity|].
+  pose proof (sim_good _ _ HS) as HG. pose proof HG as [HI HT]. destruct (sim_closed _ _ HS Es) as [C1 C2].
+  destruct (ftype_facts kind Hk) as [K1 [K2 [K3 [K4 [K5 K6]]]]]. set (t := dfan_kind_ftype kind) in *.
+  change (if kind =? DFAN_LABEL then DFTAG_FID else DFTAG_FD) with (fann_tag kind) in *. set (tag := fann_tag kind) in *.
+  set (els := of_tag tag (l_dds (h_lib h))).
+  assert (Hrepr : forall x, In x (anns a) <-> In x (map ann_of (l_dds (h_lib h)))).
+  { intros x. rewrite (sim_repr _ _ HS). apply closed_repr_iff; assumption. }
+  (* the specification's list of file annotations is a permutation of the descriptors of the tag *)
+  assert (Hperm : Permutation (map ann_of els) (of_type t (anns a))).
+  { apply NoDup_Permutation.
+    - apply NoDup_map_in.
+      + apply (NoDup_map_inv d_ref). apply of_tag_refs_NoDup. apply (tf_nodup _ HT).
+      + intros x y Hx Hy E. apply of_tag_In in Hx. apply of_tag_In in Hy. destruct Hx as [Hx Tx]. destruct Hy as [Hy Ty].
+        apply (NoDup_map_inj _ _ ddkey (l_dds (h_lib h))); [apply (tf_nodup _ HT) | assumption | assumption|].
+        unfold ann_of in E. inversion E. unfold ddkey. congruence.
+    - apply NoDup_anns. apply NoDup_filter_keys. apply (sim_nodup _ _ HS).
+    - intros x. unfold of_type. rewrite filter_In, Hrepr, !in_map_iff. split.
+      + intros [d [E Hd]]. apply of_tag_In in Hd. destruct Hd as [Hd Td]. split; [exists d; auto|]. subst x. unfold ann_of. cbn [a_key fst].
+        rewrite Td. fold tag. apply Z.eqb_eq. exact K5.
+      + intros [[d [E Hd]] Hty]. exists d. split; [assumption|]. unfold els, of_tag. apply filter_In. split; [assumption|]. apply Z.eqb_eq.
+        subst x. unfold ann_of in Hty. cbn [a_key fst] in Hty. apply Z.eqb_eq in Hty. destruct (tf_tags _ HT d Hd) as [ty [Ty Gy]].
+        rewrite Gy, ty_of_tag_of_type in Hty by assumption. subst ty. rewrite Gy. symmetry. exact K2. }
+  assert (Htext : forall d, In d els -> text_of (ann_of d) = d_data d).
+  { intros d Hd. apply of_tag_In in Hd. destruct Hd as [_ Td]. unfold ann_of, text_of, payload_text. cbn [a_text]. rewrite Td. fold tag. rewrite K4. reflexivity. }
+  assert (Hbufs : Permutation (map (fun tx => [tx]) (map d_data els)) (map (fun a0 => [text_of a0]) (of_type t (anns a)))).
+  { rewrite map_map. apply (Permutation_map (fun a0 => [text_of a0])) in Hperm. rewrite map_map in Hperm.
+    erewrite map_ext_in; [exact Hperm|]. intros d Hd. cbv beta. rewrite (Htext d Hd). reflexivity. }
+  assert (Hlen : zlen (map d_data els) = zlen (of_type t (anns a))).
+  { apply Permutation_length in Hperm. unfold zlen. rewrite !map_length in *. lia. }
+  destruct els as [|d post] eqn:Eels.
+  - (* no file annotation of this kind *)
+    assert (HM' : exists s0, enum_fann 400 (h_lib h) kind true = (s0, Some []) /\ same_tables (h_lib h) s0 /\ l_dds s0 = l_dds (h_lib h) /\ l_dir s0 = l_dir (h_lib h)).
+    { eexists. split; [|split; [|split]].
+      - cbn [enum_fann]. unfold DFANIgetfannlen, fann_lookup. cbn [negb andb l_dds set_enum]. fold tag. unfold els in Eels. rewrite Eels. cbn [hd_error]. reflexivity.
+      - repeat split. - reflexivity. - reflexivity. }
+    destruct HM' as [s0 [E0 [F0 [D0 Dr0]]]]. rewrite E0 in HM. inversion HM; inversion HSp; subst h' mr a' sr. right. right.
+    split; [apply Sim_transfer; assumption|]. split; [|split; assumption].
+    left. unfold accepts. simpl in Hlen. split; [left; congruence|]. destruct (of_type t (anns a)); [constructor | unfold zlen in Hlen; simpl in Hlen; lia].
+  - destruct (le_lt_dec 400 (length post)) as [Hcap|Hcap].
+    + right. left. unfold enum_capped. change (400 <= zlen (of_type t (anns a))). rewrite <- Hlen. unfold zlen. rewrite map_length. simpl. lia.
+    + destruct (enum_from post 400 (h_lib h) kind true [] d (tf_nodup _ HT) Eels (or_introl (conj eq_refl eq_refl)) Hcap) as [s' [E [Hd' F']]].
+      rewrite E in HM. inversion HM; inversion HSp; subst h' mr a' sr. right. right.
+      pose proof (enum_fann_dir _ _ _ _ _ _ E) as Hdir.
+      split; [apply Sim_transfer; assumption|]. split; [|split; assumption].
+      right. right. eexists _, _, _. split; [rewrite <- Hlen; reflexivity|]. split; [reflexivity | exact Hbufs].
+Qed.
 
 Lemma sim_dfgetfs : forall h a kind h' mr a' sr, SimD h a -> kind_ok kind ->
   mstep h (ODfGetFs kind) = (h', mr) -> step a (ODfGetFs kind) = (a', sr) ->
